@@ -364,6 +364,16 @@ void reb_integrator_trace_nbody_derivatives(struct reb_ode* ode, double* const y
     }
 }
 
+// Searches for and resolves collisions. Returns 1 if at least one collision was found.
+// Note: r->N_allocated_collisions is the capacity of the collisions array. It stays non-zero after the first collision ever found.
+static int reb_integrator_trace_collision_search(struct reb_simulation* const r){
+    if (r->N_allocated_collisions){
+        r->collisions[0].p1 = -2; // Overwritten by the search if a collision is found
+    }
+    reb_collision_search(r);
+    return r->N_allocated_collisions && r->collisions[0].p1 != -2;
+}
+
 void reb_integrator_trace_bs_step(struct reb_simulation* const r, double dt){
     struct reb_integrator_trace* const ri_trace = &(r->ri_trace);
 
@@ -450,8 +460,7 @@ void reb_integrator_trace_bs_step(struct reb_simulation* const r, double dt){
             r->particles[0].vy = star.vy;
             r->particles[0].vz = star.vz;
             
-	    reb_collision_search(r);
-	    if (r->N_allocated_collisions) ri_trace->force_accept = 1;
+	    if (reb_integrator_trace_collision_search(r)) ri_trace->force_accept = 1;
 
             if (nbody_ode->length != ri_trace->encounter_N*3*2){
 		// Just re-create the ODE
@@ -737,8 +746,7 @@ static void reb_integrator_trace_step(struct reb_simulation* const r){
                     if (dtsign*(r->t+r->dt) >  dtsign*t_needed){
                         r->dt = t_needed-r->t;
                     }
-                    reb_collision_search(r);
-		    if (r->N_allocated_collisions) r->ri_trace.force_accept = 1;
+		    if (reb_integrator_trace_collision_search(r)) r->ri_trace.force_accept = 1;
                 }
                 // Resetting IAS15 here reduces binary file size.
                 reb_integrator_ias15_reset(r);
@@ -783,8 +791,7 @@ static void reb_integrator_trace_step(struct reb_simulation* const r){
 
                         reb_integrator_bs_update_particles(r, nbody_ode->y);
 
-                        reb_collision_search(r);
-		        if (r->N_allocated_collisions) r->ri_trace.force_accept = 1;
+		        if (reb_integrator_trace_collision_search(r)) r->ri_trace.force_accept = 1;
                     }
                     if (nbody_ode){
                         reb_ode_free(nbody_ode);
